@@ -65,3 +65,28 @@ func (d *VerifHeadersDriver) Deliver(hs []*wire.BlockHeader) {
 
 // PeerDisconnected reports whether the handler disconnected the peer.
 func (d *VerifHeadersDriver) PeerDisconnected() bool { return peerpkg.VerifDisconnectCalled(d.Peer) }
+
+// VerifDump renders the private sync state that the handlers read (for canonical state keys).
+// Only call it while the block handler is idle (after a quiescence barrier).
+func VerifDump(sm *SyncManager) map[string]any {
+	out := map[string]any{"headersFirst": sm.headersFirstMode, "peers": len(sm.peerStates)}
+	if sm.nextCheckpoint != nil {
+		out["nextCheckpoint"] = sm.nextCheckpoint.Height
+	} else {
+		out["nextCheckpoint"] = -1
+	}
+	if sm.syncPeer != nil {
+		out["syncPeer"] = sm.syncPeer.Addr()
+		out["violations"] = sm.syncPeerState.violations
+	} else {
+		out["syncPeer"] = ""
+	}
+	cand := 0
+	for _, st := range sm.peerStates {
+		if st.SyncCandidate {
+			cand++
+		}
+	}
+	out["candidates"] = cand
+	return out
+}
